@@ -307,6 +307,22 @@ Proof.
 Qed.
 Print Assumptions c12_conn_failures_counted.
 
+(* Multi-key delete under a shard fault.  With some shards unreachable, kv DelCtx (one DelCtx per key, errors collected,
+   loop continued) has exactly the effect and the per-key replies of the fault-free multi-key delete over the named
+   keys whose shard is reachable -- wherever the unreachable keys stand in the argument list: first, middle or last --
+   and reports an error iff some named key is unreachable.  With c12_multidel: every reachable named key is removed,
+   the count covers exactly them, the rest of the store is untouched. *)
+Theorem c12_multidel_partial :
+  forall (N K A R : Type) (node_run : N -> K -> A -> N * R) (owner : K -> nat) (down : nat -> bool) ks a cl,
+    fst (kv_each_f node_run owner down cl ks a) =
+      fst (kv_each node_run owner cl (filter (fun k => negb (down (owner k))) ks) a) /\
+    flat_map (fun o => match o with Some x => [x] | None => [] end) (snd (kv_each_f node_run owner down cl ks a)) =
+      snd (kv_each node_run owner cl (filter (fun k => negb (down (owner k))) ks) a) /\
+    (existsb (fun o => match o with None => true | Some _ => false end) (snd (kv_each_f node_run owner down cl ks a))
+       = existsb (fun k => down (owner k)) ks).
+Proof. intros. apply kv_each_f_filter. Qed.
+Print Assumptions c12_multidel_partial.
+
 (* ---- non-vacuity ---- *)
 Example c12_rows_exist :
   find_row C12_Table.redis_table "ZScoreCtx" =
@@ -335,6 +351,13 @@ Example c12_options_nonvacuous :
   dial_config (new_redis (mkrconfig "h:2" "cluster" "pw" false)) = (TCluster, "h:2", "pw", false) /\
   bs_closed (brun [BGet "a"; BCreate; BCreate; BClose 1; BClose 0]) = [1%nat].
 Proof. repeat split; reflexivity. Qed.
+
+(* shard of key k = k mod 3, shard 1 unreachable; node state = list of deleted keys; reply = 1 *)
+Example c12_multidel_partial_nonvacuous :
+  let node_run := fun (n : list nat) (k : nat) (_ : unit) => (k :: n, 1%nat) in
+  let res := kv_each_f node_run (fun k => Nat.modulo k 3) (fun i => Nat.eqb i 1) (fun _ => []) [1; 3; 4; 5; 6]%nat tt in
+  snd res = [None; Some 1; None; Some 1; Some 1]%nat /\ fst res 0%nat = [6; 3]%nat /\ fst res 1%nat = [] /\ fst res 2%nat = [5]%nat.
+Proof. vm_compute. repeat split; reflexivity. Qed.
 
 Example c12_scriptcache_nonvacuous :
   sc_get (sc_run [] [("s1", "a"); ("s2", "b"); ("s1", "c")]) "s1" = Some "c" /\
